@@ -50,7 +50,7 @@ pub fn run_case(prop: &str, case: &Case) -> CaseOut {
     let prof = props::profile(&profile_of, &driver::case_tier());
     let prog = case.decode(&prof);
     let out = interp::run_any(&prog);
-    oracle::EXPLAIN.with(|e| e.set(prop == "C03"));
+    oracle::EXPLAIN.with(|e| e.set(prop == "C03" || prop == "C18"));
     let (viols, feat) = oracle::evaluate(&prog, &out);
     let ops = &out.exec.ops;
     let mut co = CaseOut::default();
